@@ -302,7 +302,7 @@ func Judge(module string, events [][]byte, extra map[string][]byte) (JudgeResult
 }
 
 // events that start a self-contained case (a chunk may begin there once the last Config/Schema is repeated)
-var caseStartKinds = map[string]bool{"Req": true, "Reset": true, "Enc": true, "Dec": true, "Body": true, "Parse": true, "Gen": true, "Embed": true, "Call": true}
+var caseStartKinds = map[string]bool{"Req": true, "Reset": true, "Enc": true, "Dec": true, "Body": true, "Parse": true, "Gen": true, "Embed": true, "Call": true, "Read": true}
 
 func judgeOne(module string, events [][]byte, extra map[string][]byte, offset int) (JudgeResult, error) {
 	var jr JudgeResult
